@@ -321,6 +321,22 @@ def generate(rng, n, tier):
         ndocs = rng.choice([1, 2, 3])
         docs = [gen_doc_for_parts(g, rng.choice(rules)["parts"], leaf=rc.cast_leaf(g) if rng.random() < 0.5 else None)
                 for _ in range(ndocs)]
+        deep = [x for x in rules if len(x["parts"]) >= 2]
+        if deep and rng.random() < 0.35:
+            # two cast rules, the shorter one selecting the containers the longer one casts inside (its ancestors)
+            base = rng.choice(deep)
+            base["cast"] = base["cast"] or [rng.choice(["int", "bool"])]
+            j = rng.randrange(1, len(base["parts"]))
+            anc = list(base["parts"][:j])
+            if rng.random() < 0.5:
+                anc = anc[:-1] + [(rng.choice(["map", "list", "molv"]),
+                                   {"key": None, "index": None, "value": None, "condition": None, "list_condition": None,
+                                    "map_condition": None, "label": None})]
+            extra = rc.gen_rule(g, cast_p=1.0)
+            extra["parts"] = anc
+            rules.append(extra)
+            k = len(rules)
+            docs = [gen_doc_for_parts(g, base["parts"], leaf=rc.cast_leaf(g)) for _ in range(ndocs)]
         ncalls = rng.choice([3, 4, 6, 8] if tier == "quick" else [4, 8, 12, 16])
         calls = [(rng.choice(["validate", "validate", "test", "get", "filter", "data_get", "data_get_alt"]), rng.randrange(k), rng.randrange(ndocs))
                  for _ in range(ncalls)]
